@@ -125,7 +125,8 @@ def run(ctx, rep):
     check_rjumps(fx, rep)
     check_inventory(fx, rep)
     import engine
-    engine.run_included(ctx, rep, ('c04', 'c11', 'c12'))
+    # C26's rule sets decide that validate_eof establishes what the EOF handlers assume without checking
+    engine.run_included(ctx, rep, ('c04', 'c11', 'c12', 'c26'))
     rep.assume('EOF code reaching the interpreter has passed validate_eof (immediates present, relative jump targets and section indices in range)')
     rep.assume('the dynamic cost functions of gas::calc charge a positive amount (their formulas are decided in C14)')
 
